@@ -162,3 +162,83 @@ contract(
     safety_props=["C18"],
     ghost={"havoc_unknown_externals": True},
 )
+
+# ---------------------------------------------------------------------------------------------- unused_externals
+
+from pyvc.defaults import SHAPES
+from pyvc.types import SSet
+
+GLOB_MATCH = z3.Function("glob_match", z3.StringSort(), z3.StringSort(), z3.BoolSort())
+
+
+def _pred(s):
+    return s.pred
+
+
+def p_storage_list(I):
+    r = fresh_value(I.ctx, parse_ty("Set[Str]"), "listed")
+    I.ghost["listed"] = r
+    I.ghost["n_list"] = I.ghost["n_list"] + 1
+    return r
+
+
+def p_storage_lookup_all(I, name):
+    """storage.lookup_all(name): the names of all stored files matching the glob `name` (contract of DiscStorage.lookup_all)"""
+    x = z3.String(I.ctx.fresh_name("f"))
+    return SSet(z3.Lambda([x], GLOB_MATCH(name.t, x)), STR)
+
+
+def p_used_externals(I, args, kwargs, node):
+    r = fresh_value(I.ctx, parse_ty("Set[Str]"), "used")
+    I.ghost["used"] = r
+    return r
+
+
+def s_subset(I, a, b):
+    x = z3.String(I.ctx.fresh_name("x"))
+    return SV(z3.ForAll([x], z3.Implies(z3.Select(a.pred, x), z3.Select(b.pred, x))), BOOL)
+
+
+def s_no_match_of_first(I, s, names, k):
+    """no member of s matches one of names[0..k)"""
+    x = z3.String(I.ctx.fresh_name("x"))
+    j = z3.Int(I.ctx.fresh_name("j"))
+    kk = k.t if isinstance(k, SV) else z3.IntVal(k)
+    return SV(z3.ForAll([x, j], z3.Implies(z3.And(0 <= j, j < kk, GLOB_MATCH(z3.Select(names.arr, j), x)), z3.Not(z3.Select(s.pred, x)))), BOOL)
+
+
+def s_no_match_of_any(I, s, names):
+    """no member of s matches a member of the set names"""
+    x = z3.String(I.ctx.fresh_name("x"))
+    n = z3.String(I.ctx.fresh_name("n"))
+    return SV(z3.ForAll([x, n], z3.Implies(z3.And(z3.Select(names.pred, n), GLOB_MATCH(n, x)), z3.Not(z3.Select(s.pred, x)))), BOOL)
+
+
+SPEC_NS.update({"subset": s_subset, "no_match_of_first": s_no_match_of_first, "no_match_of_any": s_no_match_of_any})
+
+SHAPES.update({"UState": Shape("inline_snapshot._global_state.State", {"storage": "@UStorage"}),
+               "UStorage": Shape("inline_snapshot._external.DiscStorage", {"list": p_storage_list, "lookup_all": p_storage_lookup_all})})
+
+contract(
+    FE + ".unused_externals",
+    params={},
+    globals_={"state": "@UState"},
+    callees={"used_externals": p_used_externals},
+    ghost={"vars": {"listed": "=None", "used": "=None", "n_list": "=0"}, "locals": {"unused_externals": "Set[Str]"}},
+    loops={0: Loop(index="k", ghost_modifies=[], inv={
+        "still-only-listed-files": "subset(unused_externals, listed)",
+        "referenced-so-far-are-kept": "no_match_of_first(unused_externals, _iter0, k)",
+    })},
+    returns=None,
+    result_name="ret",
+    ensures={
+        # C13: "a persisted file is removed only by an approved trim and only if no test file that took part in the session
+        # references it": the candidates handed to trim are stored files ...
+        "only-stored-files [C13,C04]": "subset(ret, listed) and n_list == 1",
+        # ... and none of them matches a reference found in a file of the session (a reference may be a shortened hash: glob)
+        "no-referenced-file [C13,C04]": "no_match_of_any(ret, used)",
+    },
+    frame=[],
+    safety_props=["C18"],
+    assumes=["X8"],
+)
